@@ -406,8 +406,10 @@ func runRun1(m map[string]string) string {
 		}
 		passes := atoi(m["m"], 1)
 		f := shot.TempFile(".uri", shot.URIAmmo(reqs))
+		target, x, cleanup := r4Target(m, target)
+		defer cleanup()
 		conf := shot.PoolYAML("uri", f, fmt.Sprintf(", passes: %d", passes), httpGunYAML(gun, target, m), passes*len(reqs)+inst, inst)
-		return fmtRun(runEngine(conf, 60*time.Second, debug))
+		return fmtRun(runEngineX(r4Conf(m, conf, &x), 60*time.Second, debug, x))
 	case "http/scenario", "http2/scenario":
 		var steps []c19Step
 		for i, r := range strings.Split(m["steps"], ";") {
@@ -465,8 +467,10 @@ func runRun1(m map[string]string) string {
 			target = sharedHostile("").Addr
 		}
 		f := shot.TempFile(".hcl", c19ScenarioHCL("scn", steps))
+		target, x, cleanup := r4Target(m, target)
+		defer cleanup()
 		conf := shot.PoolYAML("http/scenario", f, "", httpGunYAML(gun, target, m), atoi(m["n"], 1), inst)
-		return fmtRun(runEngine(conf, 60*time.Second, debug))
+		return fmtRun(runEngineX(r4Conf(m, conf, &x), 60*time.Second, debug, x))
 	case "grpc":
 		var reqs []shot.GrpcReq
 		for i, r := range strings.Split(m["reqs"], ",") {
@@ -506,7 +510,8 @@ func runRun1(m map[string]string) string {
 		}
 		gy += "}"
 		conf := shot.PoolYAML("grpc/json", f, fmt.Sprintf(", passes: %d", passes), gy, passes*len(reqs)+inst, inst)
-		return fmtRun(runEngine(conf, 60*time.Second, debug))
+		var x engineX
+		return fmtRun(runEngineX(r4Conf(m, conf, &x), 60*time.Second, debug, x))
 	case "grpc/scenario":
 		var calls []shot.GrpcCall
 		for i, r := range strings.Split(m["calls"], ";") {
@@ -581,7 +586,8 @@ func runRun1(m map[string]string) string {
 		}
 		gy += "}"
 		conf := shot.PoolYAML("grpc/scenario", f, "", gy, atoi(m["n"], 1), inst)
-		return fmtRun(runEngine(conf, 60*time.Second, debug))
+		var x engineX
+		return fmtRun(runEngineX(r4Conf(m, conf, &x), 60*time.Second, debug, x))
 	}
 	return "bad-gun"
 }
@@ -1222,6 +1228,9 @@ func gen(r *rand.Rand, tier string) []string {
 	out = append(out, "k=run gun=grpc/scenario tgt=grpc inst=1 n=2 to=600 calls=t0,hang,0,as200;t1,ok,0,-")
 	// 8. response-derived variables read by preprocessors, template functions and templates (vars.go)
 	out = append(out, genVars(r, thorough)...)
+	// 9. round 4 (round4.go): the code the guns DEPEND on — host-name targets (DNS-caching dialer), the real phout
+	// aggregator with pooled samples, every PAIR of gun settings, library defaults, timed schedules with discard_overflow
+	out = append(out, genRound4(r, thorough, gridScripts, ccOf)...)
 	return out
 }
 
